@@ -113,7 +113,8 @@ def make_jobs(check, edges):
               ("client", "first", "t", "sh:keyshare-unknown-group", "-", "only-unknown"), ("client", "first", "t", "sh:keyshare-short-key", "-", "g001d-31"),
               ("client", "cert", "t", "cert:empty-list", "-", "empty-list"), ("server", "first", "t", "ch:sni-nonascii", "-", "latin1"),
               ("client", "ee", "t", "ee:alpn-empty-list", "-", "empty-list"),
-              ("client", "first", "t", "sh:psk-selected-index", "-", "idx-0000"), ("client", "first", "t", "sh:psk-selected-index", "-", "idx-0001")]
+              ("client", "first", "t", "sh:psk-selected-index", "-", "idx-0000"), ("client", "first", "t", "sh:psk-selected-index", "-", "idx-0001"),
+              ("client", "cv", "t", "cv:alg-not-advertised", "-", "ecdsa-p256"), ("client", "cv", "t", "cv:alg-not-advertised", "-", "ed25519")]
     have = {(j["role"], j["phase"], j["cls"]["lvl"], j["cls"]["name"], j["cls"]["ep"], j["vid"]) for j in jobs}
     by = {(e["role"], e["phase"], e["cls"]["lvl"], e["cls"]["name"], e["cls"]["ep"]): e for e in edges}
     for a in always:
